@@ -379,7 +379,8 @@ def documenter_defaults_suite(out, drv):
         for n, (args, (t, m)) in enumerate([((), (path, path)), (('Ttl',), ('Ttl', 'Ttl')), (('', None), ('', '')), (('A', 'B'), ('A', 'B')),
                                             ((None, 'B'), (path, 'B')), (('A', ''), ('A', ''))]):
             with impl.capture_logs(), contextlib.redirect_stderr(io.StringIO()), contextlib.redirect_stdout(io.StringIO()):
-                real = str(impl.Documenter(path, *args, settings=impl.make_settings({}, headers=['#'])).process())
+                try: real = str(impl.Documenter(path, *args, settings=impl.make_settings({}, headers=['#'])).process())
+                except Exception as e: real = 'RAISED ' + type(e).__name__      # a crash of the code under test is a finding, not a harness failure
             mo = drv.run([dict(op='pipeline', cfg={}, headers=['#'], title=t, mod=m, src=src)])[0]
             out.traces_validated += 1; out.note_case(('C12', 'documenter-defaults', n), True)
             rec = dict(suite='documenter-defaults', key=('C12', 'documenter-defaults', n), args=[repr(a) for a in args])
